@@ -164,11 +164,16 @@ func (x *Exec) libCall(fr *Frame, st *State, key string, callee *ssa.Function, a
 					na := x.s.declare("sorted", "(Array Int "+x.s.sortOf(et)+")")
 					x.assume(st.guard, fmt.Sprintf("(forall ((ai! Int)) (! (=> (or (< ai! (s_off %s)) (>= ai! (+ (s_off %s) (s_len %s)))) (= (select %s ai!) (select (select %s (s_base %s)) ai!))) :pattern ((select %s ai!))))",
 						sv.S, sv.S, sv.S, na, sarr, sv.S, na))
+					// every element after sorting is one of the elements before (skolemised permutation witness)
+					pf := x.s.fresh("perm")
+					x.s.emit("(declare-fun " + pf + " (Int) Int)")
+					x.assume(st.guard, fmt.Sprintf("(forall ((ai! Int)) (! (=> (and (<= (s_off %s) ai!) (< ai! (+ (s_off %s) (s_len %s)))) (and (<= (s_off %s) (%s ai!)) (< (%s ai!) (+ (s_off %s) (s_len %s))) (= (select %s ai!) (select (select %s (s_base %s)) (%s ai!))))) :pattern ((select %s ai!))))",
+						sv.S, sv.S, sv.S, sv.S, pf, pf, sv.S, sv.S, na, sarr, sv.S, pf, na))
 					if inv := x.s.typeInv(et, "(select "+na+" ai!)"); inv != "true" {
 						x.assume(st.guard, fmt.Sprintf("(forall ((ai! Int)) (! %s :pattern ((select %s ai!))))", inv, na))
 					}
 					x.heapSet(st, key, et, "(ite (= (s_base "+sv.S+") 0) "+sarr+" (store "+sarr+" (s_base "+sv.S+") "+na+"))")
-					x.trust("sort.Slice(x, less) only rearranges the elements of x (modelled as: elements of x become unknown, nothing else changes; less is assumed pure)")
+					x.trust("sort.Slice(x, less) only rearranges the elements of x (modelled as: every element afterwards is one of the elements before, nothing outside x changes; multiplicity and sortedness are not used; less is assumed pure)")
 					return V{T: rt}, true
 				}
 			}
